@@ -7,6 +7,8 @@ BY_DESIGN = {
     'C28-seed4': 'outside the statement: field of the Panic receipt',
     'C28-seed6': 'outside the statement: field of the Panic receipt',
     'C11-seed6': 'outside the statement: state after a failed push (upstream WARNING)',
+    'C20-seed8': 'honest miss: needs max_gas_per_predicate == the predicate\'s gas (dimension not varied)',
+    'C29-seed6': 'C29 needs gas exhaustion at the stale return address; C31 catches it',
 }
 rows = []
 for m in sorted(glob.glob(os.path.join(os.path.dirname(__file__), '..', 'seeded', '*', 'meta.json'))):
@@ -20,8 +22,13 @@ for m in sorted(glob.glob(os.path.join(os.path.dirname(__file__), '..', 'seeded'
                 title = l[:110]
                 break
     checks = '; '.join(f"{k}: {v.split(':')[0].split('(')[0].strip()}" + (f" ({v.split('invariant=')[1].split(' ')[0]})" if 'invariant=' in v else '') for k, v in d.get('checks_run', {}).items())
+    if not d.get('verdict_after_mtime_fix'):
+        checks += ' †'
     if d['name'] in BY_DESIGN:
         checks += ' — ' + BY_DESIGN[d['name']]
     rows.append(f"| {d['name']} | {d['breaks_property']} | {title} | {checks} |")
 print("| seeded change | property | what | verdict of the checks |\n|---|---|---|---|")
+# † = verdict recorded by tools/mutant.sh before its mtime fix (a reverted file kept its old
+# mtime, so cargo could keep an earlier seeded change of ANOTHER crate compiled in); not re-run
+# after the fix for lack of time.
 print('\n'.join(rows))
